@@ -1,5 +1,6 @@
 //! unit: u12h
-//! properties: C12 C17 C07
+//! properties: C12 C17 C07 C05
+//! note: also run for C05: the code it constrains lies inside mechanisms those properties name (a change made there for their sake must meet these clauses too)
 //! note: the remaining hand-written TLV codecs of persisted objects (network graph entries, claim packages and their solving data, on-chain event entries of the monitor and the claim handler, routes and payment parameters, recipient onion fields, HTLC sources): every record that carries a same-named value on both sides is written under the type the reader takes it from
 //! trusted: R21 (TLV tables; `arm=K`, `only=`: as in u12f / u12g): the lists are taken from the functions on every run; the lemmas state that writer and reader agree
 //! plemma: C12 lemma_channel_update_info_records: Writeable for ChannelUpdateInfo (gossip.rs): 6 of 7 records
